@@ -36,7 +36,8 @@ def search_cases(ctx):
 
 def impl(ctx, c):
     d = ctx.tmpdir()
-    fn = os.path.join(d, 'z_%d_%d.zone' % (ord(c['chain']), c['num']))
+    # one file name for every case: a zone file names what it holds NOW (a reader that remembers an earlier file of that name differs)
+    fn = os.path.join(d, 'case.zone')
     try:
         StructureSimilarity._write_zone(fn, [(c['chain'], c['num'])])
         text = open(fn).read()
@@ -129,6 +130,12 @@ def make_pair(rng, kind):
         dec = cg.rigid_move(rng, dec, which=rng.choice(['all', 'B']))
     if kind == 'incomplete':
         dec = cg.delete_some(rng, dec, n_res=rng.randint(1, 2), n_atoms=rng.randint(0, 2))
+    if kind == 'chainorder':
+        # one of the two files lists chain B before chain A (same atoms, same chain identifiers)
+        if rng.random() < 0.5:
+            dec = cg.permute(rng, dec, 'chains')
+        else:
+            ref = cg.permute(rng, ref, 'chains')
     if kind == 'flip':
         big = max(ref.chains(), key=lambda c: sum(len(r['atoms']) for r in ref.residues if r['chain'] == c))
         mode = rng.choice(['side', 'backbone', 'residue'])
@@ -145,16 +152,22 @@ def extra_checks(ctx):
     rng = ctx.rng
     res = []
     d = ctx.tmpdir()
-    n = ctx.scale(27, 180)
-    kinds = ['plain', 'equal', 'rankflip', 'negative', 'incomplete', 'mirror', 'mirror', 'flip', 'flip']
+    n = ctx.scale(30, 180)
+    kinds = ['plain', 'equal', 'rankflip', 'negative', 'incomplete', 'mirror', 'mirror', 'flip', 'flip', 'chainorder']
     compared = discards = 0
     for k in range(n):
         kind = kinds[k % len(kinds)]
         ref, dec = make_pair(rng, kind)
-        rf = write(os.path.join(d, f'ref{k}.pdb'), ref.lines())
-        df = write(os.path.join(d, f'dec{k}.pdb'), dec.lines())
+        # the same file names are reused from complex to complex (rewritten structures, zone files removed so that the
+        # 'written' route really writes): a file name means what the file holds now, whatever was read from it before
+        rf = write(os.path.join(d, 'ref.pdb'), ref.lines())
+        df = write(os.path.join(d, 'dec.pdb'), dec.lines())
         S = StructureSimilarity(df, rf, enforce_residue_matching=False)
-        izf, lzf = os.path.join(d, f'c{k}.izone'), os.path.join(d, f'c{k}.lzone')
+        izf, lzf = os.path.join(d, 'c.izone'), os.path.join(d, 'c.lzone')
+        for zf in (izf, lzf):
+            for m in ('svd', 'quaternion'):
+                if os.path.exists(zf + m):
+                    os.remove(zf + m)
         vals = {'irmsd': {}, 'lrmsd': {}, 'fnat': {}}
 
         def run(measure, label, f):
